@@ -133,6 +133,9 @@ def c071(ctx):
                 rv = st.get("rv", {})
                 if rv.get("r") == "agg" and strip_generics(rv.get("adt", "")) == "skipfree::SkipListIterator":
                     n2 += 1
+                    if "head" not in rv["fields"]:
+                        ctx.check(R, f, "iter-clones-head", False, "", "the iterator is built without a `head` field holding a clone of the list's Arc", pt=(b.idx, i))
+                        continue
                     o = rv["ops"][rv["fields"].index("head")]
                     ctx.check(R, f, "iter-clones-head", K.origin_chain(f, o, ["Clone>::clone", ".head"]) or
                               (any(s["k"] == "call" and s["callee"].endswith("Clone>::clone") for s in P.origins(f, o)) and ".head" in K.src_names(f, o)),
